@@ -1131,6 +1131,11 @@ def _check_make(r):
         bad = _inv(obj)
         if bad:
             return dict(clause="every obtainable FixedArray has len(values) == dimension >= 2", request=r, observed=bad)
+        # a container whose length disagrees with the dimension that was asked for (length 0 included) must not be
+        # accepted - not even by quietly building the array from something else than the container that was given
+        if r["route"] != "internal" and _wellformed_route(r) and _size_bad_route(r):
+            return dict(clause="an attempt that would break the size invariant raises ValueError", request=r,
+                        observed="accepted: dimension %r, %d values %r" % (obj.dimension, len(obj.values), list(obj.values)[:6]))
         return None
     if r["route"] != "internal" and _wellformed_route(r) and _size_bad_route(r) and not isinstance(e, ValueError):
         return dict(clause="an attempt that would break the size invariant raises ValueError", request=r, observed=repr(e))
@@ -1208,6 +1213,13 @@ def _check_op(src, o, store):
         if bad:
             return dict(clause="every obtainable FixedArray has len(values) == dimension >= 2", op=o,
                         source=dict(dimension=src.dimension, values=src_vals, unit=src.unit), observed=bad), r
+    if do == "createCopy" and isinstance(o.get("values"), dict) and len(o["values"]["v"]) != src.dimension:
+        # the call was legal in every other respect (it did not fail): new values of another length than the
+        # dimension of the FixedArray being copied are an attempt to break its size and must raise ValueError
+        return dict(clause="an attempt that would break the size invariant raises ValueError", op=o,
+                    source=dict(dimension=src.dimension, values=src_vals, unit=src.unit, category=src.category),
+                    observed="CreateCopy with %d values of a FixedArray of dimension %r returned %s of dimension %r" % (
+                        len(o["values"]["v"]), src.dimension, type(r).__name__, getattr(r, "dimension", None))), r
     if do == "changingIndex":
         n = len(src_vals)
         i = o["index"]
